@@ -9,7 +9,8 @@
 //      neighbouring third lists, rtosc_avmessage bytes, the same inside an array
 //   A  constant runs of array values (`N x [..]`)
 // Don't-care zones (statement silent): relative order of different types, order of lists of different length,
-// order of m/r/T/F/N/I/array values among themselves (only coherence), NaN, float tolerance options,
+// order of m/r/T/F/N/I/array values among themselves (only coherence), NaN, what a float tolerance means (phase O checks only
+// that cmp and eq agree under it),
 // NULL string pointers, infinite ranges, delta ranges over booleans.
 #include <algorithm>
 #include <functional>
@@ -408,6 +409,8 @@ static bool run_arith(const std::vector<El> &x, int p, int n)
     for(int k = 1; k < n; ++k) if(x[p + k].type != x[p].type) return false;
     double d = x[p + 1].v - x[p].v;
     if(d == 0) return false;
+    // the delta is stored as a value of the run's own type: it has to fit
+    if((x[p].type == 'i' && (d > 2147483647.0 || d < -2147483648.0)) || (x[p].type == 'c' && (d > 127 || d < -128))) return false;
     for(int k = 1; k < n; ++k) if(x[p + k].v - x[p + k - 1].v != d) return false;
     return true;
 }
@@ -582,6 +585,37 @@ static void range_case(char t, const std::vector<El> &x, const std::vector<Seg> 
     vp::outcome("range:" + cls + ":n=" + std::to_string(n) + ":slots=" + std::to_string(cn));
 }
 
+static void ranges_of_list(char t, const std::vector<El> &x, const std::vector<El> &alpha, const std::string &idtag, bool sample)
+{
+    const int n = (int)x.size();
+    std::vector<std::vector<Seg>> segs; { std::vector<Seg> cur; all_segmentations(x, 0, cur, segs); }
+    std::vector<AV> plain = plain_slots(x);
+    // third lists: the neighbours of x (one shorter, one longer, one value replaced), plain and compressed
+    std::vector<Third> thirds;
+    auto add_third = [&](const std::vector<El> &y) {
+        std::vector<std::vector<Seg>> forms; forms.push_back({}); for(int k = 0; k < (int)y.size(); ++k) forms[0].push_back({k, 1, 0});
+        std::vector<Seg> g = greedy(y); if(g.size() != y.size()) forms.push_back(g);
+        for(auto &f : forms) {
+            Third th; th.s = slots_of(y, f); th.n = 0; for(const Seg &s : f) th.n += s.kind == 0 ? 1 : s.kind == 1 ? 2 : 3;
+            th.text = segs_show(y, f);
+            th.c_fwd = sgn(lib_cmp(plain, n, th.s, th.n)); th.c_rev = sgn(lib_cmp(th.s, th.n, plain, n)); th.e_fwd = lib_eq(plain, n, th.s, th.n) != 0;
+            thirds.push_back(th);
+        }
+    };
+    {
+        { std::vector<El> y(x.begin(), x.end() - 1); add_third(y); }
+        for(auto &a : alpha) { std::vector<El> y = x; y.push_back(a); add_third(y); }
+        for(int p = 0; p < n; ++p) for(auto &a : alpha) if(!el_same(a, x[p])) { std::vector<El> y = x; y[p] = a; add_third(y); }
+    }
+    std::string refmsg = ref_message(x);
+    for(size_t si = 0; si < segs.size(); ++si) {
+        std::string cid = idtag + "|" + std::to_string(si);
+        if(!vp::want(cid)) continue;
+        range_case(t, x, segs[si], plain, thirds, refmsg, cid);
+        if(sample && si == segs.size() / 2) vp::sample("ranges: expanded (" + els_show(x) + ") compressed (" + segs_show(x, segs[si]) + "), " + std::to_string(thirds.size()) + " third lists");
+    }
+}
+
 static void phase_ranges(int maxlen)
 {
     if(!rp_phase("R")) return;
@@ -599,33 +633,30 @@ static void phase_ranges(int maxlen)
                 if(!rp_is(0, std::string(1, t)) || !rp_is(1, n) || !rp_is(2, (long long)idx)) continue;
                 if(vp::deadline_passed()) { vp::cap(std::string("deadline: ranges stopped at type ") + t + " length " + std::to_string(n) + " list " + std::to_string(idx)); return; }
                 std::vector<El> x(n); { size_t r = idx; for(int k = n - 1; k >= 0; --k) { x[k] = alpha[r % A]; r /= A; } }
-                std::vector<std::vector<Seg>> segs; { std::vector<Seg> cur; all_segmentations(x, 0, cur, segs); }
-                std::vector<AV> plain = plain_slots(x);
-                // third lists: the neighbours of x (one shorter, one longer, one value replaced), plain and compressed
-                std::vector<Third> thirds;
-                auto add_third = [&](const std::vector<El> &y) {
-                    std::vector<std::vector<Seg>> forms; forms.push_back({}); for(int k = 0; k < (int)y.size(); ++k) forms[0].push_back({k, 1, 0});
-                    std::vector<Seg> g = greedy(y); if(g.size() != y.size()) forms.push_back(g);
-                    for(auto &f : forms) {
-                        Third th; th.s = slots_of(y, f); th.n = 0; for(const Seg &s : f) th.n += s.kind == 0 ? 1 : s.kind == 1 ? 2 : 3;
-                        th.text = segs_show(y, f);
-                        th.c_fwd = sgn(lib_cmp(plain, n, th.s, th.n)); th.c_rev = sgn(lib_cmp(th.s, th.n, plain, n)); th.e_fwd = lib_eq(plain, n, th.s, th.n) != 0;
-                        thirds.push_back(th);
-                    }
-                };
-                {
-                    { std::vector<El> y(x.begin(), x.end() - 1); add_third(y); }
-                    for(auto &a : alpha) { std::vector<El> y = x; y.push_back(a); add_third(y); }
-                    for(int p = 0; p < n; ++p) for(auto &a : alpha) if(!el_same(a, x[p])) { std::vector<El> y = x; y[p] = a; add_third(y); }
-                }
-                std::string refmsg = ref_message(x);
-                for(size_t si = 0; si < segs.size(); ++si) {
-                    std::string cid = std::string("R|") + t + "|" + std::to_string(n) + "|" + std::to_string(idx) + "|" + std::to_string(si);
-                    if(!vp::want(cid)) continue;
-                    range_case(t, x, segs[si], plain, thirds, refmsg, cid);
-                    if(idx % 1237 == 11 && si == segs.size() / 2) vp::sample("ranges: expanded (" + els_show(x) + ") compressed (" + segs_show(x, segs[si]) + "), " + std::to_string(thirds.size()) + " third lists");
-                }
+                ranges_of_list(t, x, alpha, std::string("R|") + t + "|" + std::to_string(n) + "|" + std::to_string(idx), idx % 1237 == 11);
             }
+        }
+    }
+    // wide runs: arithmetic runs whose members all fit the type while k*delta or last-first does not (32 bit), steps beyond 32 bits and
+    // congruent to +-1 modulo 2^32 (64 bit), runs next to the ends of the type's range; each alone, with a leading and a trailing extra value
+    {
+        struct W { char t; double start, step; int n; };
+        const double P32 = 4294967296.0;
+        static const W WIDE[] = {
+            {'i', -2000000000.0, 800000000.0, 5}, {'i', 2000000000.0, -800000000.0, 5}, {'i', -2147483647.0, 2147483647.0, 3}, {'i', -2147483648.0, 1073741824.0, 4},
+            {'i', 2147483647.0, -1073741824.0, 4}, {'i', 2147483643.0, 1.0, 5}, {'i', -2147483644.0, -1.0, 5}, {'i', -16777217.0, 8388609.0, 5}, {'i', -1500000000.0, 1000000000.0, 4},
+            {'h', 0.0, P32 + 1, 4}, {'h', 0.0, P32 - 1, 4}, {'h', 3.0, -(P32 + 1), 4}, {'h', -3.0, -(P32 - 1), 4}, {'h', 0.0, P32, 4}, {'h', -7.0, 5000000000.0, 4}, {'h', -2000000000.0, 800000000.0, 5},
+            {'h', -4503599627370496.0, 2251799813685248.0, 5}, {'h', 0.0, 2147483648.0, 4}, {'h', 1.0, -2147483648.0, 4}};
+        vp::bound("wide_runs", "19 arithmetic runs (32 bit: span above 2^31 across zero, ends of the range, step 2^23+1; 64 bit: steps 2^32+-1, +-2^32, 5e9, +-2^31, 2^51) x {alone, extra value in front, extra value behind}, every segmentation");
+        size_t wi = 0;
+        for(const W &w : WIDE) for(int ctx = 0; ctx < 3; ++ctx, ++wi, ++top) {
+            if(!vp::mine(top)) continue;
+            if(!rp_is(0, "W") || !rp_is(1, (long long)wi)) continue;
+            std::vector<El> x; if(ctx == 1) x.push_back({w.t, 5.0});
+            for(int k = 0; k < w.n; ++k) x.push_back({w.t, w.start + k * w.step});
+            if(ctx == 2) x.push_back({w.t, -9.0});
+            std::vector<El> alpha = {{w.t, 0.0}, {w.t, w.start}, {w.t, w.start + w.step}, {w.t, w.start + (w.n - 1) * w.step}, {'T', 0}};
+            ranges_of_list(w.t, x, alpha, "R|W|" + std::to_string(wi), ctx == 0);
         }
     }
 }
@@ -702,6 +733,46 @@ static void phase_array_runs()
     }
 }
 
+// ---- phase O: a non-default float tolerance ---------------------------------------------------------------
+// With a tolerance the relation is no order any more (not transitive), and the statement does not say what the tolerance
+// means; what it does say independently of options: cmp returns 0 exactly when eq reports equal, and the two directions agree.
+static void phase_tolerance()
+{
+    if(!rp_phase("O")) return;
+    std::vector<double> vals, tols;
+    for(int k = -20; k <= 20; ++k) vals.push_back(k / 10.0);
+    for(double v : {16777216.0, 16777217.0, -16777216.0, 1e30, -1e30, 3.0e-39, 0.30000001192092896}) vals.push_back(v);
+    for(int m = 1; m <= 20; ++m) tols.push_back(m / 10.0);
+    for(double t : {0.25, 0.75, 1e-3, 1e-9, 16777216.0, 16777217.0, 1e30}) tols.push_back(t);
+    vp::bound("tolerance_grid", "values k/10 (k=-20..20) + 2^24, 2^24+1, -2^24, +-1e30, a denormal, 0.3f as float and as double; tolerances m/10 (m=1..20), 0.25, 0.75, 1e-3, 1e-9, 2^24, 2^24+1, 1e30; shapes: one value, behind an equal int, `3 x a` against `b b b`");
+    uint64_t top = 0;
+    for(char t : {'f', 'd'}) for(size_t ti = 0; ti < tols.size(); ++ti) for(size_t ai = 0; ai < vals.size(); ++ai, ++top) {
+        if(!vp::mine(top)) continue;
+        if(!rp_is(0, std::string(1, t)) || !rp_is(1, (long long)ti) || !rp_is(2, (long long)ai)) continue;
+        rtosc_cmp_options o; o.float_tolerance = tols[ti];
+        for(size_t bi = 0; bi < vals.size(); ++bi) for(int shape = 0; shape < 3; ++shape) {
+            std::string cid = std::string("O|") + t + "|" + std::to_string(ti) + "|" + std::to_string(ai) + "|" + std::to_string(bi) + "|" + std::to_string(shape);
+            if(!vp::want(cid)) continue;
+            vp::eval(); vp::state(); if(ai != bi) vp::nontrivial(vp::fnv(cid));
+            AV a = t == 'f' ? av_f((float)vals[ai]) : av_d(vals[ai]), b = t == 'f' ? av_f((float)vals[bi]) : av_d(vals[bi]);
+            std::vector<AV> l, r;
+            if(shape == 0) { l = {a}; r = {b}; }
+            else if(shape == 1) { l = {av_i('i', 7), a}; r = {av_i('i', 7), b}; }
+            else { l = {av_rep(3, 0), a}; r = {b, b, b}; }
+            int e1 = rtosc_arg_vals_eq(l.data(), r.data(), l.size(), r.size(), &o), e2 = rtosc_arg_vals_eq(r.data(), l.data(), r.size(), l.size(), &o);
+            int c1 = rtosc_arg_vals_cmp(l.data(), r.data(), l.size(), r.size(), &o), c2 = rtosc_arg_vals_cmp(r.data(), l.data(), r.size(), l.size(), &o);
+            vp::transition(4);
+            char d[200]; snprintf(d, sizeof d, "%c %.9g vs %.9g, tolerance %.9g, shape %d: eq=%d/%d cmp=%d/%d", t, vals[ai], vals[bi], tols[ti], shape, e1, e2, c1, c2);
+            const std::string cls = std::string(shape == 2 ? "Nxv-vs-expanded" : shape == 1 ? "behind-prefix" : "single") + "," + t;
+            if((e1 != 0) != (c1 == 0) || (e2 != 0) != (c2 == 0)) vp::violation("cmp0-iff-eq|float-tolerance|" + cls, cid, d);
+            else if((e1 != 0) != (e2 != 0)) vp::violation("eq-symmetric|float-tolerance|" + cls, cid, d);
+            else if(sgn(c1) != -sgn(c2)) vp::violation("antisymmetric|float-tolerance|" + cls, cid, d);
+            vp::outcome(std::string("tolerance:") + (e1 ? "equal" : c1 < 0 ? "less" : "greater"));
+        }
+        vp::trace();
+    }
+}
+
 int main(int argc, char **argv)
 {
     vp::init(argc, argv, "C16");
@@ -740,5 +811,6 @@ int main(int argc, char **argv)
     }
     phase_ranges(maxlen);
     phase_array_runs();
+    phase_tolerance();
     return vp::finish();
 }
